@@ -691,6 +691,13 @@ fn primitive<'s>(input: &mut &'s str) -> PResult<Option<BoundSet>, SemverParseEr
     Parser::map(
         (operation, preceded(space0, partial_version)),
         |parsed| match parsed {
+            // `>x` and `<x` admit nothing, every other operator on a wildcard admits everything
+            (GreaterThan | LessThan, Partial { major: None, .. }) => {
+                BoundSet::at_most(Predicate::Excluding((0, 0, 0, 0).into()))
+            }
+            (_, Partial { major: None, .. }) => {
+                BoundSet::at_least(Predicate::Including((0, 0, 0).into()))
+            }
             (GreaterThanEquals, partial) => {
                 BoundSet::at_least(Predicate::Including(partial.into()))
             }
@@ -810,7 +817,6 @@ fn primitive<'s>(input: &mut &'s str) -> PResult<Option<BoundSet>, SemverParseEr
                     build: vec![],
                 })),
             ),
-            _ => None,
         },
     )
     .context("operation range (ex: >= 1.2.3)")
@@ -960,6 +966,9 @@ fn tilde_gt<'s>(input: &mut &'s str) -> PResult<Option<&'s str>, SemverParseErro
 
 fn tilde<'s>(input: &mut &'s str) -> PResult<Option<BoundSet>, SemverParseError<&'s str>> {
     Parser::map((tilde_gt, partial_version), |parsed| match parsed {
+        (_, Partial { major: None, .. }) => {
+            BoundSet::at_least(Predicate::Including((0, 0, 0).into()))
+        }
         (
             Some(_gt),
             Partial {
@@ -1044,6 +1053,9 @@ fn caret<'s>(input: &mut &'s str) -> PResult<Option<BoundSet>, SemverParseError<
     Parser::map(
         preceded((literal("^"), space0), partial_version),
         |parsed| match parsed {
+            Partial { major: None, .. } => {
+                BoundSet::at_least(Predicate::Including((0, 0, 0).into()))
+            }
             Partial {
                 major: Some(0),
                 minor: None,
